@@ -58,3 +58,21 @@ def nfc(s: str) -> str:
 
 def jdump(x) -> str:
     return json.dumps(x, ensure_ascii=True, sort_keys=True)
+
+
+_tools = {}
+
+
+def tool(kind):
+    """the long-lived tool instance of this worker process (the MCP server creates each tool once and keeps it for its lifetime)"""
+    if kind not in _tools:
+        if kind == "validate":
+            from octave_mcp.mcp.validate import ValidateTool as T
+        elif kind == "write":
+            from octave_mcp.mcp.write import WriteTool as T
+        elif kind == "eject":
+            from octave_mcp.mcp.eject import EjectTool as T
+        else:
+            from octave_mcp.mcp.compile_grammar import CompileGrammarTool as T
+        _tools[kind] = T()
+    return _tools[kind]
